@@ -253,6 +253,12 @@ impl Docs {
             d.truncate(max_items * 2);
             chars.push((format!("gen-{}", i), d));
         }
+        // two documents with a spine a little deeper than 64 levels (per-level parser state that wraps around)
+        for i in 0..2u64 {
+            let mut rng = Rng::for_run(seed, 0x0d0d, i);
+            let depth = 64 + rng.urange(1, 6);
+            chars.push((format!("spine-{}", i), super::docgen::gen_spine_doc(&mut rng, depth)));
+        }
         let mut bytes = corpus.byte_docs(2048);
         for (n, d) in chars.iter().skip(corpus_count) { bytes.push((n.clone(), d.iter().collect::<String>().into_bytes())); }
         Docs { chars, bytes, corpus_count }
@@ -445,8 +451,13 @@ impl Search {
                 let target = if rng.chance(1, 10) { rng.urange(self.max_items, self.max_items * 8) } else { rng.urange(2000, self.max_items) };
                 super::docgen::gen_big_doc(&mut rng, target)
             } else {
-                let k = Knobs::draw(&mut rng, if big { self.max_items } else { 120 });
-                gen_doc(&mut rng, &k)
+                if rng.chance(1, 25) {
+                    let depth = *rng.pick(&[20usize, 63, 64, 65, 66, 100, 127, 128, 129, 200, 255, 256, 257, 300, 1000]);
+                    super::docgen::gen_spine_doc(&mut rng, depth)
+                } else {
+                    let k = Knobs::draw(&mut rng, if big { self.max_items } else { 120 });
+                    gen_doc(&mut rng, &k)
+                }
             }
         };
         // swarm: a random subset of fault kinds is enabled in this run
